@@ -199,7 +199,11 @@ theorem findDesc_mem' {descs : List Desc} {id : Nat} {d : Desc} (h : findDesc de
 theorem okOr_ok {α} (r : Except Err Unit) (v : α) (h : r = .ok ()) : okOr r v = .ok v := by
   subst h; rfl
 
-theorem createInstance_singleton (beh : Beh) (f : Nat) (st : State) (s : Nat) (d : Desc) (wf : WF st.descs)
+/-- hypothesis of the Build theorems: constructors fill every field of their result objects
+(a nil field is the known finding D15) -/
+def NoNilOutputs (beh : Beh) : Prop := ∀ c n, beh.nilField c n = none
+
+theorem createInstance_singleton (beh : Beh) (hnil : NoNilOutputs beh) (f : Nat) (st : State) (s : Nat) (d : Desc) (wf : WF st.descs)
     (rw' : RegWF st.descs) (hd : d ∈ st.descs) (hl : d.life = .singleton) :
     CreateSing st (createInstance beh (f + 1) st s d).1 d (createInstance beh (f + 1) st s d).2 := by
   unfold createInstance
@@ -284,6 +288,7 @@ theorem createInstance_singleton (beh : Beh) (f : Nat) (st : State) (s : Nat) (d
             · rw [rw'.voidAlone d hd hvoid] at h; simp at h
         next hmulti =>
           -- multi: one value per sibling
+          simp only [hnil d.ctor]
           generalize hsibs' : (if (d.sibs.filterMap (findDesc (bumpInv ra.1 d.ctor).descs)).isEmpty then [d]
             else d.sibs.filterMap (findDesc (bumpInv ra.1 d.ctor).descs)) = sibs'
           have hs'life : ∀ sd ∈ sibs', sd.life = .singleton ∧
@@ -303,8 +308,11 @@ theorem createInstance_singleton (beh : Beh) (f : Nat) (st : State) (s : Nat) (d
             (logEv (alloc (bumpInv ra.1 d.ctor) sibs'.length d.ctor ((bumpInv ra.1 d.ctor).invs d.ctor))
               (.ctor d.id d.ctor ((bumpInv ra.1 d.ctor).invs d.ctor) s args (allocOuts (bumpInv ra.1 d.ctor).next sibs'.length)))
             hs'life (by simp [allocOuts])
+          have hcont : (sibs'.map (·.id)).contains d.id = true := by
+            simp only [List.contains_eq_mem, List.mem_map, decide_eq_true_eq]
+            exact ⟨d, hdin, rfl⟩
           refine ⟨h1.descs.trans hdescs, hgrow0.trans h1.grows, honly0.trans h1.only, nested, true, hnested,
-            fun _ => ⟨_, by rw [h1ok]; rfl⟩, by simp, ?_, ?_⟩
+            fun _ => ⟨_, by simp only [hcont, ↓reduceIte, h1ok]; rfl⟩, by simp, ?_, ?_⟩
           · intro c; exact hcnt _ _ c (by rw [h1.log]; rfl) ⟨_, _, _, _, rfl⟩
           · intro _
             refine ⟨h1s d hdin, Or.inr ⟨rfl, ?_⟩⟩
@@ -366,12 +374,12 @@ structure BuildInv (descs : List Desc) (st : State) : Prop where
   counted : ∀ d ∈ descs, d.life = .singleton → (∀ v, d.kind ≠ .inst v) →
     (lookup st.singletons d.ident).isSome → ctorCount st.log d.ctor = 1
 
-theorem buildInv_step (beh : Beh) (descs : List Desc) (wf : WF descs) (rw' : RegWF descs) (st : State)
+theorem buildInv_step (beh : Beh) (hnil : NoNilOutputs beh) (descs : List Desc) (wf : WF descs) (rw' : RegWF descs) (st : State)
     (inv : BuildInv descs st) (d : Desc) (hd : d ∈ descs) (hl : d.life = .singleton)
     (hnone : (lookup st.singletons d.ident).isSome = false) (f s : Nat) :
     BuildInv descs (createInstance beh (f + 1) st s d).1 := by
   have hde := inv.descsEq
-  have cs := createInstance_singleton beh f st s d (hde ▸ wf) (hde ▸ rw') (hde ▸ hd) hl
+  have cs := createInstance_singleton beh hnil f st s d (hde ▸ wf) (hde ▸ rw') (hde ▸ hd) hl
   generalize createInstance beh (f + 1) st s d = r at cs
   obtain ⟨nested, fired, hnested, hfok, hfalse, hcount, hres⟩ := cs.count
   have hsc := singCtor_of descs wf rw' d hd hl
@@ -421,7 +429,7 @@ theorem buildInv_step (beh : Beh) (descs : List Desc) (wf : WF descs) (rw' : Reg
         subst this
         simp [hdc, hzero]
 
-theorem createSingletons_inv (beh : Beh) (descs : List Desc) (wf : WF descs) (rw' : RegWF descs) :
+theorem createSingletons_inv (beh : Beh) (hnil : NoNilOutputs beh) (descs : List Desc) (wf : WF descs) (rw' : RegWF descs) :
     ∀ (order : List Nat) (st : State), BuildInv descs st → BuildInv descs (createSingletons beh st order).1 := by
   intro order
   induction order with
@@ -442,7 +450,7 @@ theorem createSingletons_inv (beh : Beh) (descs : List Desc) (wf : WF descs) (rw
         next hn =>
           have hnone : (lookup st.singletons d.ident).isSome = false := by simpa using hn
           obtain ⟨f, hf⟩ : ∃ f, fuelFor st = f + 1 := ⟨fuelFor st - 1, by unfold fuelFor; omega⟩
-          have hstep := buildInv_step beh descs wf rw' st inv d hd hl' hnone f rootScope
+          have hstep := buildInv_step beh hnil descs wf rw' st inv d hd hl' hnone f rootScope
           rw [← hf] at hstep
           simp only []
           split
@@ -452,10 +460,10 @@ theorem createSingletons_inv (beh : Beh) (descs : List Desc) (wf : WF descs) (rw
 /-- AT MOST ONCE: whatever order the graph produced and whatever the constructors do, after the
 singleton-creation phase of Build no constructor of a singleton registration has succeeded twice;
 and a stored non-instance singleton identity means its constructor succeeded exactly once -/
-theorem build_singletons_once (beh : Beh) (descs : List Desc) (wf : WF descs) (rw' : RegWF descs) (order : List Nat)
+theorem build_singletons_once (beh : Beh) (hnil : NoNilOutputs beh) (descs : List Desc) (wf : WF descs) (rw' : RegWF descs) (order : List Nat)
     (st0 : State) (h0 : st0.descs = descs) (hlog : st0.log = []) (hs : st0.singletons = []) :
     BuildInv descs (createSingletons beh st0 order).1 := by
-  apply createSingletons_inv beh descs wf rw' order st0
+  apply createSingletons_inv beh hnil descs wf rw' order st0
   refine ⟨h0, ?_, ?_, ?_⟩
   · intro c _; rw [hlog]; simp
   · intro c _ h; rw [hlog] at h; simp at h
@@ -465,7 +473,7 @@ end Godi.Container
 
 namespace Godi.Container
 
-theorem createSingletons_ok_stored (beh : Beh) (descs : List Desc) (wf : WF descs) (rw' : RegWF descs) :
+theorem createSingletons_ok_stored (beh : Beh) (hnil : NoNilOutputs beh) (descs : List Desc) (wf : WF descs) (rw' : RegWF descs) :
     ∀ (order : List Nat) (st : State), BuildInv descs st → (createSingletons beh st order).2 = .ok () →
       Grows st.singletons (createSingletons beh st order).1.singletons ∧
       ∀ id ∈ order, ∀ d, findDesc descs id = some d → d.life = .singleton →
@@ -512,8 +520,8 @@ theorem createSingletons_ok_stored (beh : Beh) (descs : List Desc) (wf : WF desc
         · simp only [hst, Bool.false_eq_true, ↓reduceIte] at hok ⊢
           have hnone : (lookup st.singletons d0.ident).isSome = false := by simpa using hst
           obtain ⟨f, hf⟩ : ∃ f, fuelFor st = f + 1 := ⟨fuelFor st - 1, by unfold fuelFor; omega⟩
-          have cs := createInstance_singleton beh f st rootScope d0 (hde ▸ wf) (hde ▸ rw') (hde ▸ hd0) hl0'
-          have hstep := buildInv_step beh descs wf rw' st inv d0 hd0 hl0' hnone f rootScope
+          have cs := createInstance_singleton beh hnil f st rootScope d0 (hde ▸ wf) (hde ▸ rw') (hde ▸ hd0) hl0'
+          have hstep := buildInv_step beh hnil descs wf rw' st inv d0 hd0 hl0' hnone f rootScope
           rw [← hf] at cs hstep
           generalize createInstance beh (fuelFor st) st rootScope d0 = r at cs hstep hok ⊢
           cases hr : r.2 with
